@@ -233,11 +233,17 @@ func (g *tgen) typ(d int) *tx {
 	case 0, 1:
 		return g.leaf()
 	case 2:
+		if g.r.Intn(4) == 0 {
+			return &tx{k: "ptr", a: []*tx{g.arr(d)}}
+		}
 		return &tx{k: "ptr", a: []*tx{g.typ(d - 1)}}
 	case 3:
+		if g.r.Intn(6) == 0 {
+			return &tx{k: "slice", a: []*tx{g.arr(d)}}
+		}
 		return &tx{k: "slice", a: []*tx{g.typ(d - 1)}}
 	case 4:
-		return &tx{k: "array", n: 1 + g.r.Intn(3), a: []*tx{g.typ(d - 1)}}
+		return g.arr(d)
 	case 5:
 		return &tx{k: "map", a: []*tx{g.key(), g.typ(d - 1)}}
 	case 6:
@@ -281,6 +287,36 @@ func (g *tgen) typ(d int) *tx {
 			return &tx{k: "gen", s: "Pair", a: []*tx{g.key(), g.typ(d - 1)}}
 		}
 		return &tx{k: "gen", s: pick(g.r, tgGenerics), a: []*tx{g.typ(d - 1)}}
+	}
+}
+
+// tgArrayLens: the lengths generated arrays take; zero-length arrays are a class of their own (a length
+// of 0 is a known length, not the "unknown length" sentinel of go/types, which is negative).
+var tgArrayLens = []int{0, 0, 1, 2, 3, 3, 8}
+
+func (g *tgen) arrLen() int { return tgArrayLens[g.r.Intn(len(tgArrayLens))] }
+
+// arr generates an array type; one in three is an array of arrays (any mix of zero and non-zero lengths).
+func (g *tgen) arr(d int) *tx {
+	if g.r.Intn(3) == 0 {
+		inner := &tx{k: "array", n: g.arrLen(), a: []*tx{g.typ(d - 2)}}
+		return &tx{k: "array", n: g.arrLen(), a: []*tx{inner}}
+	}
+	return &tx{k: "array", n: g.arrLen(), a: []*tx{g.typ(d - 1)}}
+}
+
+// cmp generates a comparable type (usable as a map key): arrays of / pointers to arrays of key types.
+func (g *tgen) cmp(d int) *tx {
+	if d <= 0 {
+		return g.key()
+	}
+	switch g.r.Intn(5) {
+	case 0:
+		return g.key()
+	case 1:
+		return &tx{k: "ptr", fixed: true, a: []*tx{g.arr(1)}}
+	default:
+		return &tx{k: "array", n: g.arrLen(), a: []*tx{g.cmp(d - 1)}}
 	}
 }
 
@@ -370,6 +406,15 @@ func (g *tgen) mutate(t *tx, harmless bool) string {
 				return "generic-swap"
 			}
 		case "array":
+			// another known length: to or from zero half of the time, else one more
+			switch {
+			case n.n != 0 && g.r.Intn(2) == 0:
+				n.n = 0
+				return "array-len-to-zero"
+			case n.n == 0:
+				n.n = []int{1, 2, 8}[g.r.Intn(3)]
+				return "array-len-from-zero"
+			}
 			n.n++
 			return "array-len"
 		case "chan":
@@ -498,6 +543,9 @@ func (g *tgen) mutate(t *tx, harmless bool) string {
 				return "method-sig"
 			}
 		case "ptr", "slice":
+			if n.fixed {
+				continue
+			}
 			if g.r.Intn(2) == 0 {
 				if n.k == "ptr" {
 					n.k = "slice"
@@ -749,6 +797,31 @@ var (
 	k87 func(map[string]int, string)
 	k88 map[AInt]int
 	k89 map[int]AInt
+	// zero-length arrays (a known length, unlike the negative "unknown length" of go/types), alone, nested,
+	// behind pointers and slices, and at the two positions a repeated pattern variable compares
+	k90  [0]int
+	k91  [0]AInt
+	k92  [1]int
+	k93  [0]string
+	k94  [0][4]int
+	k95  [4][0]int
+	k96  [0][0]int
+	k97  *[0]int
+	k98  *[3]int
+	k99  [][0]int
+	k100 func([0]byte, [8]byte)
+	k101 func([8]byte, [8]byte)
+	k102 func([0]byte, [0]uint8)
+	k103 map[[0]byte][16]byte
+	k104 map[[16]byte][16]byte
+	k105 struct {
+		A [4]int
+		B [0]int
+	}
+	k106 []func(*[0]int) *[3]int
+	k107 [0]struct{}
+	k108 [2][0]int
+	k109 map[*[0]int]*[0]int
 )
 
 type Number2 interface{ M0() }
@@ -787,6 +860,9 @@ func localB() {
 
 func GenC[T Number, S Str, C Cmp](T, S, C) {}
 `
+
+// c14LastKernelVar: k0 … k<n> are the hand-written declarations of c14MainHead.
+const c14LastKernelVar = 109
 
 // c14Call is one call of the end-to-end section of the main file (one per line).
 type c14Call struct {
@@ -848,6 +924,58 @@ func c14SourcesTx(r *rand.Rand, nBase int, e2eVars int) (map[string]string, map[
 		}
 	}
 	group(&sb, "v", "", g, nBase)
+	// twins: one declaration holding a type and a copy / respelt copy / near miss of it at two positions
+	// (what a repeated pattern variable, a map[K]K or an IdenticalTo filter compares), biased to arrays
+	// (zero and non-zero lengths, arrays of arrays, pointers to arrays) and comparable types
+	for i := 0; i < nBase+4; i++ {
+		var a *tx
+		comparable := false
+		switch g.r.Intn(3) {
+		case 0:
+			a, comparable = g.cmp(2), true
+		case 1:
+			a = g.arr(2)
+		default:
+			a = g.typ(1 + g.r.Intn(2))
+		}
+		b, label := a.clone(), "copy"
+		switch g.r.Intn(4) {
+		case 0:
+		case 1:
+			if l := g.mutate(b, true); l != "" {
+				label = "same:" + l
+			}
+		default:
+			if l := g.mutate(b, false); l != "" {
+				label = "near:" + l
+			}
+		}
+		if g.r.Intn(2) == 0 {
+			a, b = b, a
+		}
+		var t *tx
+		shape := g.r.Intn(7)
+		if shape == 0 && !comparable {
+			shape = 1 + g.r.Intn(6)
+		}
+		switch shape {
+		case 0:
+			t = &tx{k: "map", a: []*tx{a, b}}
+		case 1:
+			t = &tx{k: "func", n: 2, a: []*tx{a, b}}
+		case 2:
+			t = &tx{k: "func", n: 1, a: []*tx{a, b}}
+		case 3:
+			t = &tx{k: "struct", f: []txField{{"F0", "", a}, {"F1", "", b}}}
+		case 4:
+			t = &tx{k: "slice", a: []*tx{{k: "func", n: 1, a: []*tx{a, b}}}}
+		case 5:
+			t = &tx{k: "func", n: 4, a: []*tx{{k: "basic", s: "int"}, a, {k: "basic", s: "string"}, b}}
+		default:
+			t = &tx{k: "ptr", a: []*tx{{k: "struct", f: []txField{{"X", "", a}, {"Y", "", b}}}}}
+		}
+		emit(&sb, "w", t, "twin:"+label, "")
+	}
 	// two generic functions with identical signatures and bodies: the same spelling denotes
 	// different type parameters
 	gg := &tgen{r: r, tparams: []string{"T", "U"}}
@@ -866,12 +994,14 @@ func c14SourcesTx(r *rand.Rand, nBase int, e2eVars int) (map[string]string, map[
 	fmt.Fprintf(&sb, "\nfunc Gen3[T any, U Number](x T, y U) (U, error) {\n\tvar zero U\n\treturn zero, nil\n}\n")
 	// end-to-end section: one call per line, over the package-level variables
 	var pvars []string
-	for i := 0; i <= 89; i++ {
+	for i := 0; i <= c14LastKernelVar; i++ {
 		pvars = append(pvars, fmt.Sprintf("k%d", i))
 	}
 	for i := 0; i < vi; i++ {
-		if _, ok := labels[fmt.Sprintf("v%d", i)]; ok {
-			pvars = append(pvars, fmt.Sprintf("v%d", i))
+		for _, pfx := range []string{"v", "w"} {
+			if _, ok := labels[fmt.Sprintf("%s%d", pfx, i)]; ok {
+				pvars = append(pvars, fmt.Sprintf("%s%d", pfx, i))
+			}
 		}
 	}
 	if len(pvars) > e2eVars {
